@@ -1126,6 +1126,9 @@ def delete_array(da):
             da = Array(da, accessmode='r+')
     except Exception:
         raise TypeError(f"'{da}' not recognized as a Darr array")
+    if da.accessmode != 'r+':
+        raise OSError("darr array not writeable; change 'accessmode' "
+                      "attribute to 'r+'")
     da.check_arraywriteable()
     for fn in da._protectedfiles:
         path = da.path.joinpath(fn)
@@ -1182,6 +1185,9 @@ def truncate_array(a, index):
             a = Array(a, accessmode='r+')
     except Exception:
         raise TypeError(f"'{a}' not recognized as a darr Array")
+    if a.accessmode != 'r+':
+        raise OSError("darr array not writeable; change 'accessmode' "
+                      "attribute to 'r+'")
     a.check_arraywriteable()
     if not isinstance(index, int):
         raise TypeError(f"'index' should be an int (is {type(index)})")
